@@ -346,6 +346,64 @@ def input_discarded_only_when_closing(chk):
     chk.floor('discard-input users', n, 2)
 
 
+def received_record_dispatch(chk):
+    """What br_ssl_engine_recvrec_ack does with a decrypted record is a function of its type and of the application-data state
+    (0 = handshake in progress, 1 = exchanging data, 2 = closing): ChangeCipherSpec / alert / handshake records wake the handshake
+    processor; application data is left for the application when data is being exchanged, acknowledged away (discarded) while
+    closing, and is a fatal unexpected_message during a handshake (silently dropping it would remove bytes from the middle of the
+    stream); any other type fails.  Decided by partial evaluation of the function for each (type, state) pair - engine not closed,
+    payload present - and comparison of the calls that remain with this table.  While closing the payload must be consumed
+    (recvpld_ack) for the engine to keep offering an operation."""
+    from .. import fold
+    R = 'received-record-dispatch'
+    s = 'src/ssl/ssl_engine.c'
+    U = oblig.funit(s)
+    L = irf.Layouts(U.unit)
+    fn = 'br_ssl_engine_recvrec_ack'
+    if fn not in U.funcs:
+        raise AnalysisBroken('%s vanished' % fn)
+    F = U.func(fn)
+    o_rt = L.field('br_ssl_engine_context', 'record_type_in')[0]
+    o_ad = L.field('br_ssl_engine_context', 'application_data')[0]
+    lr, la = U.field_loads(fn, 0, o_rt), U.field_loads(fn, 0, o_ad)
+    closed = [c for c in F.calls() if c.get('callee') == 'br_ssl_engine_closed']
+    pbuf = [c for c in F.calls() if c.get('callee') == 'recvpld_buf']
+    if not lr or not la or len(closed) != 1 or len(pbuf) != 1:
+        raise AnalysisBroken('%s: anchors not found (loads of record_type_in %d, application_data %d, closed %d, recvpld_buf %d)' % (fn, len(lr), len(la), len(closed), len(pbuf)))
+    NOIN = ('recvrec_ack', 'recvpld_buf', 'recvpld_ack', 'jump_handshake', 'br_ssl_engine_fail', 'br_ssl_engine_closed')
+    cv = build.const_values(['BR_ERR_UNEXPECTED'])
+    UNEXP = cv['BR_ERR_UNEXPECTED']
+
+    def want(rt, ad):
+        if rt in (20, 21, 22):
+            return [('jump_handshake', 0)]
+        if rt == 23:
+            return {0: [('br_ssl_engine_fail', UNEXP)], 1: [], 2: [('recvpld_ack', None)]}[ad]
+        return [('br_ssl_engine_fail', UNEXP)]
+    names = {20: 'change_cipher_spec', 21: 'alert', 22: 'handshake', 23: 'application_data', 24: 'type 24 (heartbeat)', 0: 'type 0'}
+    states = {0: 'during a handshake', 1: 'while exchanging data', 2: 'while closing'}
+    n = 0
+    for rt in (20, 21, 22, 23, 24, 0):
+        for ad in (0, 1, 2):
+            hy = [dict(kind='pin', n=closed[0]['n'], value=0), dict(kind='pin', n=pbuf[0]['n'], value='inttoptr (i64 4096 to i8*)')]
+            hy += [dict(kind='pin', n=x['n'], value=rt) for x in lr] + [dict(kind='pin', n=x['n'], value=ad) for x in la]
+            Fo = U.optimise(fn, hy, NOIN)
+            got = []
+            for i in fold._reach_insts(Fo):
+                if i['op'] == 'call' and i.get('callee') in ('recvpld_ack', 'jump_handshake', 'br_ssl_engine_fail'):
+                    a = i['ops'][1].get('v') if i['ops'][1]['k'] == 'c' else '?'
+                    got.append((i['callee'], None if i['callee'] == 'recvpld_ack' else a))
+            n += 1
+            w = want(rt, ad)
+            inst = '%s: %s record %s -> %s' % (fn, names[rt], states[ad], ', '.join('%s(%s)' % (c, '..' if a is None else a) for c, a in w) or 'left for the application')
+            if got == w:
+                chk.ok(R, inst, s)
+            else:
+                chk.violation(R, inst, F.where(), 'the function does: %s' % (', '.join('%s(%s)' % (c, '..' if a is None else a) for c, a in got) or 'nothing'),
+                              key='%s %d %d' % (R, rt, ad))
+    chk.floor('record dispatch cases', n, 18)
+
+
 def no_renegotiation_option(chk):
     """BR_OPT_NO_RENEGOTIATION: "when disabled, renegotiation is declined with a no_renegotiation warning".  In both interpreters the
     post-handshake loop - the word that sends warning 100 - must consult that option: the bytecode tests engine flags by bit *index*
@@ -700,6 +758,7 @@ def run(tier):
     record_type_restored(chk)
     no_renegotiation_option(chk)
     input_discarded_only_when_closing(chk)
+    received_record_dispatch(chk)
     fail_call_sites(chk)
     io_rules(chk)
     # the closure / renegotiation processor is resumed when a record has been sent (engine I/O transition table, shared with C01 / C06)
